@@ -1,8 +1,12 @@
 from harness.props import base
 from harness import preds
 LEVEL = 'other'
-VFILES = ['Engine.v']
-EXPLANATION = 'strict vs recovering parser: parse correspondence in both modes + first_error_agrees on the implementation.'
+VFILES = ['Engine.v', 'EngineSim.v', 'Properties/C07.v']
+TECHNIQUE = 'Coq simulation proof between the strict and the recovering run of the engine model (accepting half) + parse correspondence in both modes + first-error search'
+EXPLANATION = ('Proved on the Engine model for all tables and token lists: if strict parsing accepts, recovery takes the same steps and returns the identical tree '
+               '(step simulation over add_token, _recovery_tokenize is the identity while no INDENT was dropped). C07_partial: absence of error nodes in that tree, '
+               'the converse and the agreement on the first error token are decided by the parse correspondence in both modes and the first_error_agrees predicate.')
+LEVEL_TEXT = EXPLANATION
 
 
 def pred(v, code, m):
